@@ -173,7 +173,7 @@ def run(ctx: Ctx, extended: bool = False) -> None:
     for _ in range(n_eq):
         s = gen_structure(rng)
         t1 = instantiate(rng, s, use_dc=False)
-        mode = int(rng.integers(7))
+        mode = int(rng.integers(9))
         if mode == 0:
             t2 = tree_lib.map_structure(lambda x: np.array(x), t1)
         elif mode == 1:  # perturb one leaf
@@ -194,8 +194,25 @@ def run(ctx: Ctx, extended: bool = False) -> None:
         elif mode == 6:  # the same, the other way round: the first tree is the wide one
             t2 = t1
             t1 = tree_lib.map_structure(lambda x: np.array(x).astype(np.float64) + (0.25 if np.array(x).dtype != bool else 2.0), t2)
+        elif mode in (7, 8):
+            # mixed precision: float32 leaves with values that are not binary fractions against float64 leaves holding the decimal
+            # value (closer than one float32 ulp, so any comparison after a narrowing conversion calls them equal); mode 8 swaps
+            t1 = tree_lib.map_structure(lambda x: (np.array(x).astype(np.float64) / 10.0 + 0.1).astype(np.float32), t1)
+            t2 = tree_lib.map_structure(lambda x: np.round(np.array(x).astype(np.float64), 6), t1)
+            if mode == 8:
+                t1, t2 = t2, t1
         else:  # other structure
             t2 = instantiate(rng, gen_structure(rng), use_dc=False)
+        # backends: NumPy leaves, JAX leaves, or one side each (a JAX array holds at most 32-bit values here: x64 is off);
+        # rank-0 float64 leaves sometimes become Python floats
+        bk = int(rng.integers(4))
+        if bk in (1, 3):
+            t1 = tree_lib.map_structure(lambda x: jnp.asarray(x) if np.asarray(x).dtype != np.float64 else x, t1)
+        if bk in (2, 3):
+            t2 = tree_lib.map_structure(lambda x: jnp.asarray(x) if np.asarray(x).dtype != np.float64 else x, t2)
+        if rng.random() < 0.3:
+            t2 = tree_lib.map_structure(lambda x: float(x) if (np.ndim(x) == 0 and np.asarray(x).dtype == np.float64) else x, t2)
+        ctx.count(f"eq_backend_{bk}")
         ctx.evaluations += 1
 
         def enc(t):
